@@ -1,5 +1,6 @@
 import Sidetree.Client
 import Sidetree.Vdr
+import Sidetree.Lemmas.Framing
 import Sidetree.Drv.Did
 import Sidetree.Drv.Keys
 namespace Sidetree.Drv
@@ -153,6 +154,58 @@ def createPremises (cfg : Protocol) (orc : Oracles) (s : Json) : Option Bool :=
         decide (utf8Len dh ≤ cfg.maxOperationHashLength) && (transformValue sd.toJson).isSome &&
         (newCreateRequest hashFam info).isSome)
 
+def updateOptsOf (i : Json) : UpdateOpts :=
+  { removeAka := getStrList i "removeAka", removeKeys := getStrList i "removeKeys", removeServices := getStrList i "removeServices",
+    addAka := getStrList i "addAka", addServices := (getArr i "addServices").map docServiceOf,
+    addKeys := (getArr i "addKeys").map docKeyOf }
+
+/-- do the hypotheses of `Props.C08.update/deactivate/recover_built_accepted_unwindowed` hold for
+    this step? `none`: the step is not of that shape (create, a window is set, builder refused) -/
+def signedPremises (cfg : Protocol) (orc : Oracles) (tab : List Json) (s : Json) : Option Bool :=
+  let i := s.getD "info"
+  let op := getStr s "op"
+  let via := getStr s "via"
+  if op = "create" then none
+  else if getInt i "anchorFrom" ≠ 0 ∨ getInt i "anchorUntil" ≠ 0 then none
+  else
+    let code := getNat i "code"
+    let signerJ := i.get? "signer"
+    let key : Option Jwk := if via = "client" then jwkOf (signerJ.bind (·.get? "jwk")) else jwkOf (i.get? "key")
+    match signerOf tab signerJ, key with
+    | some sg, some k =>
+      match sg.headers with
+      | none => some false
+      | some hdrs =>
+        let fits := hdrs.all Framing.plainEntry && decide ((hdrs.map (·.1)).Nodup) && signerOK (some sg) &&
+          (match Json.lookup "alg" hdrs with | some (.str a) => cfg.signatureAlgorithms.contains a | _ => false)
+        let keyOK := Parser.signingKeyOK cfg (some k)
+        let reveal := if via = "client" then
+            ((Hashing.getMultihashCode (getStr i "commitment")).bind fun c => Hashing.revealValue hashFam k.toJson c).getD ""
+          else getStr i "reveal"
+        let revealOK := Parser.multihashOK cfg reveal &&
+          ((cfg.multihashAlgorithms.head?.bind fun c => Hashing.revealValue hashFam k.toJson c) == some reveal)
+        let time := orc.anchorTimeOK 0 (Parser.anchorUntil cfg 0 0)
+        if op = "deactivate" then some (fits && keyOK && revealOK && time)
+        else
+          -- update / recover: the delta must validate and hash under the protocol's algorithm
+          let patches : Option (List Json) :=
+            if via = "client" then
+              if op = "update" then
+                updatePatches (updateOptsOf i)
+              else (docJson ((getArr i "keys").map docKeyOf) ((getArr i "services").map docServiceOf) (getStrList i "aka")).bind PatchBuild.fromDocument
+            else patchesOf (optMember i "opaque") (getArr i "patches")
+          let uc : String :=
+            if via = "client" then ((pubJwk (i.get? "nextUpdateKey")).bind fun nk => Hashing.commitment hashFam nk.toJson code).getD ""
+            else getStr i "uc"
+          match patches with
+          | none => some false
+          | some ps =>
+            let delta := mkDelta uc ps
+            let dh := (Hashing.calculateModelMultihash hashFam delta.toJson code).getD ""
+            some (fits && keyOK && revealOK && time && decide (cfg.multihashAlgorithms = [code]) &&
+              Parser.validateDelta cfg orc (some delta) && decide (utf8Len dh ≤ cfg.maxOperationHashLength) && dh != "")
+    | _, _ => some false
+
 /-- kind `lifecycle` (C08): build every request, parse it, convert it to its anchored form,
     apply that (and the original bytes) to the state so far -/
 def lifecycleKind (c : Json) : Json :=
@@ -179,6 +232,7 @@ def lifecycleKind (c : Json) : Json :=
                 protocolVersion := 0, canonicalReference := "ref" ++ toString idx, equivalentReferences := none }
             let common : List (String × Json) :=
               (match createPremises cfg orc s with | some b => [("premises", .bool b)] | none => []) ++
+              (match signedPremises cfg orc tab s with | some b => [("premises", .bool b)] | none => []) ++
               [("built", .str "ok"), ("request", .str text), ("parse", .str "ok"), ("anchored", .str atext),
                ("atype", .str p.type.toString), ("asuffix", .str p.uniqueSuffix), ("aorigin", optJson p.anchorOrigin)]
             match Applier.apply hashFam cfg orc (mk atext) rm, Applier.apply hashFam cfg orc (mk text) rm with
